@@ -513,11 +513,16 @@ where
     R: Read,
     W: WriteAt,
 {
-    let iter = DecodeResponseIter::new(outboard.root(), outboard.tree(), encoded, ranges);
+    let tree = outboard.tree();
+    let iter = DecodeResponseIter::new(outboard.root(), tree, encoded, ranges);
     for item in iter {
         match item? {
             BaoContentItem::Parent(Parent { node, pair }) => {
-                outboard.save(node, &pair)?;
+                // a response for a partially requested chunk group also contains
+                // parents below the chunk group level, which no outboard stores
+                if tree.is_relevant_for_outboard(node) {
+                    outboard.save(node, &pair)?;
+                }
             }
             BaoContentItem::Leaf(Leaf { offset, data }) => {
                 target.write_all_at(offset, &data)?;
